@@ -38,6 +38,7 @@
       fmt.Fprintf(w, `  %s [shape=DQplaintextDQ, ..., label=<%s> ]\n`, dotID(name), dotHTML(name))   (placeholder)
       fmt.Fprintf(w, `  %s -> %s [ color=... ]\n`, dotID(name), dotID(b.Target), ...) *)
 From Coq Require Import String Ascii List Bool Arith DecimalString.
+From Sheens Require Export Gen.Names.
 Import ListNotations.
 Local Open Scope string_scope.
 
@@ -70,10 +71,19 @@ Fixpoint byte_replace (pairs : list (ascii * string)) (s : string) : string :=
       end
   end.
 
+(** The three tables of pairs are not written here: they are the arguments
+    of the strings.NewReplacer calls in dotID, dotHTML and mermaidText as
+    harness/cmd/genconsts reads them from the source of the tree under test
+    on every run (Gen/Names.v: old byte, new string, in source order; an old
+    string that is not one byte is reported, the replacer would not be the
+    byte-wise one).  The equations the proofs use ([dot_escape_cons],
+    [dot_html_cons], [mermaid_text_cons] in Proofs/ToolsTextProofs.v) state
+    the tables with the characters written out; they hold by computation on
+    the generated tables and fail when a pair in the source changes. *)
+
 (** * Graphviz: dotID *)
-Definition dot_pairs : list (ascii * string) :=
-  [ (bslash, String bslash (String bslash EmptyString));     (* one backslash -> two *)
-    (dquote, String bslash (String dquote EmptyString)) ].   (* quote -> backslash quote *)
+(** one backslash -> two; quote -> backslash quote *)
+Definition dot_pairs : list (ascii * string) := dot_id_escapes.
 
 Definition dot_escape (s : string) : string := byte_replace dot_pairs s.
 
@@ -92,8 +102,7 @@ Definition dot_edge_head (a b : string) : string :=
     40 bytes - the cut is not modelled, [doc] is the text that is written) *)
 Definition amp : ascii := "038"%char.       (* & *)
 
-Definition html_pairs : list (ascii * string) :=
-  [ (amp, "&amp;"); (langle, "&lt;"); (rangle, "&gt;") ].
+Definition html_pairs : list (ascii * string) := dot_html_escapes.
 
 Definition dot_html (s : string) : string := byte_replace html_pairs s.
 
@@ -109,8 +118,7 @@ Definition dot_node_label (name doc : string) : string :=
   end.
 
 (** * Mermaid: mermaidText, node ids *)
-Definition mermaid_pairs : list (ascii * string) :=
-  [ (hash, "#35;"); (dquote, "#quot;") ].
+Definition mermaid_pairs : list (ascii * string) := mermaid_text_escapes.
 
 Definition mermaid_text (s : string) : string := byte_replace mermaid_pairs s.
 
